@@ -239,6 +239,19 @@ func c28One(c *fw.Ctx, cs c28Case) {
 		c.Inconclusive(fmt.Sprintf("%d writes failed", werrs))
 		return
 	}
+	// epilogue: every node is written away from its value and straight back (A, B, A within one publishing interval):
+	// the last delivered value has to follow
+	time.Sleep(70 * time.Millisecond)
+	for i, n := range rs.Vars {
+		var a int64
+		if dv := n.Value(); dv != nil && dv.Value != nil {
+			a, _ = dv.Value.Value().(int64)
+		}
+		if write(mcl, i, int64(i)<<40|int64(0xff)<<32|int64(1+i)) != nil || write(mcl, i, a) != nil {
+			c.Inconclusive("epilogue write failed")
+			return
+		}
+	}
 	// quiescence: for every node a subscription monitors, the last delivered value becomes the node's value
 	current := make([]int64, len(ids))
 	for i, n := range rs.Vars {
@@ -345,7 +358,7 @@ func init() {
 	fw.Register("C28", fw.Spec{
 		Plan: func(tier string) fw.Plan {
 			p := fw.Plan{Batches: 8, TimeoutS: 1200, MinNontrivial: 40, Level: "exploration",
-				Rule:        "the real server with 2-6 variables, the real client with a NodeMonitor and 1-2 channel subscriptions (10-30 ms), 1-4 writer clients on their own connections writing 100-400 (thorough: up to 1600) unique values each, every value carrying the index of its node; in half of the histories nodes are added to and removed from the subscriptions while the writers run; oracle 1: every delivered message has no error and its value was written to the node it names; oracle 2: within 6000 heartbeats of the last write the last value delivered for every node a subscription still monitors equals the node's value on the server; histories with drops reported by the monitor (slow consumer) are inconclusive; distinct = histories",
+				Rule:        "the real server with 2-6 variables, the real client with a NodeMonitor and 1-2 channel subscriptions (10-30 ms), 1-4 writer clients on their own connections writing 100-400 (thorough: up to 1600) unique values each, every value carrying the index of its node; in half of the histories nodes are added to and removed from the subscriptions while the writers run; at the end every node is written to a new value and straight back to the previous one; oracle 1: every delivered message has no error and its value was written to the node it names; oracle 2: within 6000 heartbeats of the last write the last value delivered for every node a subscription still monitors equals the node's value on the server; histories with drops reported by the monitor (slow consumer) are inconclusive; distinct = histories",
 				Assumptions: []string{"the application drains its channel (capacity 65536); heartbeat clock"}}
 			if tier == "thorough" {
 				p.Batches, p.TimeoutS, p.MinNontrivial = 16, 3400, 2500
